@@ -61,6 +61,11 @@ is_job_invalid_light(IMB_MGR *state, const IMB_CIPHER_MODE cipher_mode, const IM
                         imb_set_errno(state, IMB_ERR_JOB_KEY_LEN);
                         return 1;
                 }
+                /* only AES-128-CBCS is implemented */
+                if (cipher_mode == IMB_CIPHER_CBCS_1_9 && key_len_in_bytes != UINT64_C(16)) {
+                        imb_set_errno(state, IMB_ERR_JOB_KEY_LEN);
+                        return 1;
+                }
                 break;
         case IMB_CIPHER_DOCSIS_SEC_BPI:
                 if ((key_len_in_bytes != UINT64_C(16)) && (key_len_in_bytes != UINT64_C(32))) {
@@ -442,6 +447,11 @@ is_job_invalid(IMB_MGR *state, const IMB_JOB *job, const IMB_CIPHER_MODE cipher_
                         return 1;
                 }
                 if (cipher_mode == IMB_CIPHER_CBCS_1_9) {
+                        /* only AES-128-CBCS is implemented */
+                        if (key_len_in_bytes != UINT64_C(16)) {
+                                imb_set_errno(state, IMB_ERR_JOB_KEY_LEN);
+                                return 1;
+                        }
                         if (job->msg_len_to_cipher_in_bytes > ((1ULL << (60)) - 1)) {
                                 imb_set_errno(state, IMB_ERR_JOB_CIPH_LEN);
                                 return 1;
